@@ -18,6 +18,7 @@ func (x *Exec) step(fr *Frame, ins ssa.Instruction, st *State) {
 		r := x.allocRef(st, in.Comment)
 		a := &Addr{root: rCell, ref: r, cellT: t, curT: t}
 		x.store(st, a, x.w.zeroOf(t))
+		x.allocEmbeddedArrays(st, r, t)
 		fr.vals[in] = r
 	case *ssa.BinOp:
 		fr.vals[in] = x.binop(fr, in, st)
@@ -63,6 +64,9 @@ func (x *Exec) step(fr *Frame, ins ssa.Instruction, st *State) {
 	case *ssa.Field:
 		v := x.term(fr, in.X)
 		si := x.w.structOf(in.X.Type())
+		if _, isArr := in.Type().Underlying().(*types.Array); isArr {
+			unsup("array field of a struct value used by value")
+		}
 		fr.vals[in] = x.w.field(si, v, in.Field)
 	case *ssa.FieldAddr:
 		fr.vals[in] = x.fieldAddr(fr, in, st)
@@ -494,6 +498,9 @@ func (x *Exec) unop(fr *Frame, in *ssa.UnOp, st *State) Value {
 		v := x.get(fr, in.X)
 		a := x.toAddr(v, in.X.Type())
 		x.nilCheckAddr(st, in, a, in.X)
+		if _, ok := x.arrayFieldRow(st, a); ok {
+			unsup("array embedded in a struct loaded by value")
+		}
 		r := x.load(st, a)
 		// memory-model axiom: every cell holds a valid value of its type
 		x.assume(x.w.validFacts(r, in.Type(), st.alloc, 0))
@@ -662,6 +669,14 @@ func (x *Exec) indexAddr(fr *Frame, in *ssa.IndexAddr, st *State) Value {
 			x.safety(st, "nil", in, describe(in.X), ts.Not(ts.Eq(t, ts.IntLit(0))))
 		}
 		x.safety(st, "index", in, describe(in.X)+"["+describe(in.Index)+"]", x.w.bvult(idx, ts.BV(uint64(at.Len()), 64)))
+		if row, ok := x.arrayFieldRow(st, a); ok {
+			if _, isStruct := at.Elem().Underlying().(*types.Struct); isStruct {
+				// array of structs embedded in a struct: a row of references to the element objects
+				e := x.objElem(st, row, idx, at.Elem())
+				return e
+			}
+			return &Addr{root: rElem, arr: row, idx: idx, elemT: at.Elem(), curT: at.Elem()}
+		}
 		n := *a
 		n.path = append(append([]pathStep{}, a.path...), pathStep{idx: idx, arrT: xt.Elem()})
 		n.curT = at.Elem()
@@ -849,6 +864,14 @@ func (x *Exec) slice(fr *Frame, in *ssa.Slice, st *State) Value {
 		}
 		x.safety(st, "slice", in, detail, ts.And(x.w.bvule(lo, hi), x.w.bvule(hi, mx), x.w.bvule(mx, n)))
 		base := x.get(fr, in.X)
+		if ba, ok := base.(*Addr); ok {
+			if row, ok := x.arrayFieldRow(st, ba); ok {
+				if _, isStruct := at.Elem().Underlying().(*types.Struct); isStruct {
+					unsup("slice of an embedded array of structs")
+				}
+				return x.w.mkSlice(row, lo, x.bvOp("bvsub", hi, lo), x.bvOp("bvsub", mx, lo))
+			}
+		}
 		// Arrays live as values inside cells/fields, slices need a backing row:
 		// model the array cell's row as E[ref] by copying (sound only if the
 		// array is not accessed through the original path afterwards): unsupported
@@ -911,4 +934,67 @@ func (x *Exec) implements(v *Term, it types.Type) *Term {
 	name := "impl_" + sanitize(shortTypeString(it))
 	x.w.implUsed[name] = iface
 	return x.w.Fun(name, SBool, v)
+}
+
+// arrayFieldRow: a addresses an array-typed field of a struct; returns the
+// reference of the row holding the array's elements.
+func (x *Exec) arrayFieldRow(st *State, a *Addr) (*Term, bool) {
+	if _, ok := a.curT.Underlying().(*types.Array); !ok {
+		return nil, false
+	}
+	inStruct := false
+	switch {
+	case len(a.path) > 0:
+		inStruct = a.path[len(a.path)-1].isField
+	case a.root == rField:
+		inStruct = true
+	}
+	if !inStruct {
+		return nil, false
+	}
+	row := x.load(st, a)
+	if row.sort != SInt {
+		return nil, false
+	}
+	ts := x.w.ts
+	x.assume(ts.And(x.w.intLt(ts.IntLit(0), row), x.w.intLe(row, st.alloc)))
+	return row, true
+}
+
+// objElem: reference of element idx of an embedded array of structs (rows of
+// object references; distinct indices give distinct, non-nil objects).
+func (x *Exec) objElem(st *State, row, idx *Term, elemT types.Type) *Term {
+	ts := x.w.ts
+	si := x.w.structOf(elemT)
+	cn := "Eobj_" + si.name
+	h := x.comp(st, cn, SArr(SInt, SArr(SBV(64), SInt)))
+	e := ts.Select(ts.Select(h, row), idx)
+	x.assume(ts.And(x.w.intLt(ts.IntLit(0), e), x.w.intLe(e, st.alloc)))
+	x.assume(ts.And(ts.Eq(x.w.Fun("objrow_"+si.name, SInt, e), row), ts.Eq(x.w.Fun("objidx_"+si.name, SBV(64), e), idx)))
+	return e
+}
+
+// allocEmbeddedArrays gives the array fields of a freshly allocated struct their rows.
+func (x *Exec) allocEmbeddedArrays(st *State, ref *Term, t types.Type) {
+	u, ok := t.Underlying().(*types.Struct)
+	if !ok {
+		return
+	}
+	ts := x.w.ts
+	for i := 0; i < u.NumFields(); i++ {
+		at, ok := u.Field(i).Type().Underlying().(*types.Array)
+		if !ok {
+			continue
+		}
+		r := x.allocRef(st, "arrayfield")
+		fn, fs := x.fieldComp(t, i)
+		st.heap[fn] = ts.Store(x.comp(st, fn, fs), ref, r)
+		if _, isStruct := at.Elem().Underlying().(*types.Struct); isStruct {
+			x.note("embedded array of structs in a freshly allocated %s: element objects are not zero-initialised in the model", shortTypeString(t))
+			continue
+		}
+		en, es := x.elemComp(at.Elem())
+		_, rowSort, _ := es.arrParts()
+		st.heap[en] = ts.Store(x.comp(st, en, es), r, ts.App("(as const "+string(rowSort)+")", rowSort, x.w.zeroOf(at.Elem())))
+	}
 }
